@@ -1,9 +1,51 @@
-(* C07 property theorems (statements closed by [exact]); filled as the proofs land. *)
-From Tbfmm Require Import Base.Prelude Tree.GroupDefs Tree.BuildDefs Tree.Invariant.
+(* C07 — the tree is the sorted, partitioned ancestor closure of the occupied leaves.
+   Statements only; proofs in Tree/BuildProofs.v. *)
+From Tbfmm Require Import Base.Prelude Index.MortonDefs Index.MortonProofs Tree.GroupDefs Tree.BuildDefs Tree.Invariant Tree.BuildProofs.
 Local Open Scope Z_scope.
 
-(* non-vacuity: the model builds a tree satisfying the invariant on a concrete input *)
-Theorem C07_example_tree_ok :
-  tree_okb (fun i => i / 8) 3 2 false (build (fun i => i / 8) 3 2 false [5;5;63;0;9;12;9]) = true.
-Proof. vm_compute. reflexivity. Qed.
-Print Assumptions C07_example_tree_ok.
+(* the executable checker run on every dumped tree decides exactly the invariant *)
+Theorem C07_tree_okb_spec : forall par H B mode t, 0 <= H -> (tree_okb par H B mode t = true <-> tree_ok par H B mode t).
+Proof. exact tree_okb_spec. Qed.
+Print Assumptions C07_tree_okb_spec.
+
+(* one level up, both grouping strategies: non-empty groups, headers matching content, strictly increasing indices across
+   groups, cells = exactly the parents of the level below, block size respected unless one-group-per-parent *)
+Theorem C07_level_up_ok : forall par mode B lower, (forall a b, a <= b -> par a <= par b) -> (forall a, 0 <= a -> 0 <= par a) ->
+  1 <= B -> level_ok lower -> Forall (fun c => 0 <= c) (level_cells lower) ->
+  let up := level_up par mode B lower in
+  level_ok up /\ level_cells up = parents_of par (level_cells lower) /\ (mode = false -> Forall (fun g => cg_n g <= B) up)
+  /\ Forall (fun c => 0 <= c) (level_cells up).
+Proof. exact level_up_ok. Qed.
+Print Assumptions C07_level_up_ok.
+
+(* the whole constructor, for every input (any number of particles, any leaf indices >= 0), every height, every block size >= 1,
+   both grouping modes, and every monotone parent map (Morton in any dimension, see C07_morton_instance) *)
+Theorem C07_build_ok : forall par H B mode idx, (forall a b, a <= b -> par a <= par b) -> (forall a, 0 <= a -> 0 <= par a) ->
+  1 <= H -> 1 <= B -> idx <> [] -> Forall (fun c => 0 <= c) idx ->
+  tree_ok par H B mode (build par H B mode idx).
+Proof. exact build_ok. Qed.
+Print Assumptions C07_build_ok.
+
+(* the occupied leaves of the tree are exactly the leaf indices of the input particles *)
+Theorem C07_build_leaf_set : forall par H B mode idx, 1 <= H -> 1 <= B -> idx <> [] -> Forall (fun c => 0 <= c) idx ->
+  forall i, In i (flat_map pg_indices (t_pgroups (build par H B mode idx))) <-> In i idx.
+Proof. exact build_leaf_set. Qed.
+Print Assumptions C07_build_leaf_set.
+
+(* the Morton parent map of any dimension satisfies the two hypotheses *)
+Lemma morton_parent_monotone : forall d a b, a <= b -> parent d a <= parent d b.
+Proof. intros d a b Hab. rewrite !parent_div. apply Z.div_le_mono; [apply pow_dz_pos | exact Hab]. Qed.
+Lemma morton_parent_nonneg : forall d a, 0 <= a -> 0 <= parent d a.
+Proof. intros d a Ha. rewrite parent_div. apply Z.div_pos; [exact Ha | apply pow_dz_pos]. Qed.
+Theorem C07_morton_instance : forall d H B mode idx, 1 <= H -> 1 <= B -> idx <> [] -> Forall (fun c => 0 <= c) idx ->
+  tree_ok (parent d) H B mode (build (parent d) H B mode idx).
+Proof.
+  intros d H B mode idx HH HB Hne Hpos.
+  exact (build_ok (parent d) H B mode idx (morton_parent_monotone d) (morton_parent_nonneg d) HH HB Hne Hpos).
+Qed.
+Print Assumptions C07_morton_instance.
+
+(* non-vacuity *)
+Example C07_example : tree_okb (parent 3) 3 2 false (build (parent 3) 3 2 false [5;5;63;0;9;12;9]) = true
+                   /\ tree_okb (parent 3) 3 2 true (build (parent 3) 3 2 true [5;5;63;0;9;12;9]) = true.
+Proof. vm_compute. split; reflexivity. Qed.
